@@ -384,8 +384,35 @@ func c17(repo string, out *fg.Out) error {
 	if its == nil {
 		return fmt.Errorf("func intervalToSeconds not found")
 	}
-	if err := expectSnippets(qf, its, "intervalToSeconds", `n, err := strconv.Atoi(amount)`, `if err != nil { return 0 }`, `switch unit {`); err != nil {
+	if err := expectSnippets(qf, its, "intervalToSeconds", `if err != nil { return 0 }`, `switch unit {`); err != nil {
 		return err
+	}
+	// how the amount string becomes a number: strconv.Atoi(amount) (base 10) or strconv.ParseInt(amount, <base>, _)
+	amountBase := int64(-1)
+	amountCall := ""
+	for _, cl := range append(fg.CallsNamed(its, "Atoi"), fg.CallsNamed(its, "ParseInt")...) {
+		if len(cl.Args) == 0 {
+			continue
+		}
+		if id, ok := cl.Args[0].(*ast.Ident); !ok || id.Name != "amount" {
+			continue
+		}
+		if amountCall != "" {
+			return fmt.Errorf("intervalToSeconds: amount is parsed more than once")
+		}
+		amountCall = fg.CalleeName(cl)
+		if amountCall == "Atoi" {
+			amountBase = 10
+		} else if len(cl.Args) == 3 {
+			lit, ok := cl.Args[1].(*ast.BasicLit)
+			if !ok || lit.Kind != token.INT {
+				return fmt.Errorf("intervalToSeconds: ParseInt base is not an integer literal")
+			}
+			amountBase, _ = strconv.ParseInt(lit.Value, 0, 64)
+		}
+	}
+	if amountCall == "" || amountBase < 0 {
+		return fmt.Errorf("intervalToSeconds: strconv.Atoi(amount) / strconv.ParseInt(amount, base, bits) not found")
 	}
 	type unitRow struct {
 		Unit string `json:"unit"`
@@ -757,6 +784,8 @@ func c17(repo string, out *fg.Out) error {
 		fmt.Fprintf(w, "(%s, %s)", fg.LeanStr(r.Unit), fg.LeanInt(r.Mult))
 	}
 	fmt.Fprintf(w, "]\n")
+	fmt.Fprintf(w, "/-- `intervalToSeconds` parses the amount with strconv.%s in this base (0 = Go's prefix-sniffing: 0x, 0o, leading 0 = octal). -/\n", amountCall)
+	fmt.Fprintf(w, "def amountParseBase : Nat := %d\n", amountBase)
 	fmt.Fprintf(w, "def tb3Fmt : String := %s\ndef tb3Args : List String := %s\ndef tb3Expr : RExpr := %s\n", fg.LeanStr(fmt3), leanStrList(args3), ast3)
 	fmt.Fprintf(w, "def tb2Fmt : String := %s\ndef tb2Args : List String := %s\ndef tb2Expr : RExpr := %s\n", fg.LeanStr(fmt2), leanStrList(args2), ast2)
 	fmt.Fprintf(w, "def dtFmt : String := %s\ndef dtArgs : List String := %s\ndef dtExpr : RExpr := %s\n", fg.LeanStr(fmtD), leanStrList(argsD), astD)
@@ -788,6 +817,7 @@ func c17(repo string, out *fg.Out) error {
 	fmt.Fprintf(w, "end Arc.Generated.C17\n")
 
 	out.JSON["unit_table"] = table
+	out.JSON["amount_parse"], out.JSON["amount_base"] = amountCall, amountBase
 	out.JSON["tb3_fmt"], out.JSON["tb2_fmt"], out.JSON["dt_fmt"] = fmt3, fmt2, fmtD
 	out.JSON["tb_units"], out.JSON["dt_units"] = tbUnits, dtUnits
 	out.JSON["origin_layouts"] = layouts
